@@ -72,7 +72,7 @@ def compare_traces(ops, obs, resp, limit=4):
     for n, (op, m, i) in enumerate(zip(ops, mt, it)):
         if 'raised' in i:
             d.append(f'op {n} {op["op"]}: implementation raised {i["raised"]}')
-        for key in ('queued', 'holding'):
+        for key in ('queued', 'pre', 'holding'):
             if m[key] != i[key]:
                 d.append(f'op {n} {op["op"]}: {key} model {m[key]} vs implementation {i[key]}')
         if norm_hash(m['hash']) != norm_hash(i['hash']):
@@ -96,14 +96,15 @@ ARGS = [{}, {}, {'fire_count': '3'}, {'log_msg': 'hit {x}'}, {'condition': 'x > 
 
 
 class Sched:
-    """generator-side bookkeeping so that generated schedules are well-formed: how many apply tasks wait, whether
-    one holds a value, whether one is blocked on the lock (must be the next to read once the holder is done)"""
+    """generator-side bookkeeping so that generated schedules are well-formed: how many apply tasks wait, how many stand before
+    the lock, whether one holds it, whether one is blocked on it (must be the next to read once the holder is done)"""
 
     def __init__(self, rng):
         self.rng = rng
         self.ops = []
         self.ref = Reference()
         self.queued = 0
+        self.pre = 0             # tasks parked in front of the update lock
         self.holding = False
         self.blocked = None      # index (in the queued list) of a task already blocked on the lock
         self.contention = False  # may a read be attempted while another task holds the lock (costs a probe wait)
@@ -178,24 +179,33 @@ class Sched:
         self.queued -= 1
         return True
 
-    def read(self):
+    def start(self):
+        """a queued task runs up to the update lock and parks there (any number may)"""
         if self.queued == 0:
             return False
+        self.emit({'op': 'taskStart', 'i': self.rng.randrange(self.queued)})
+        self.queued -= 1
+        self.pre += 1
+        return True
+
+    def read(self):
+        """a parked task takes the lock (or, with `contention`, tries while another holds it and blocks)"""
+        if self.pre == 0:
+            return self.start()
         if self.holding:
             if self.blocked is not None or not self.contention:
                 return False
-            i = self.rng.randrange(self.queued)
-            self.emit({'op': 'taskRead', 'i': i})       # will block on the lock
-            self.blocked = i
+            k = self.rng.randrange(self.pre)
+            self.emit({'op': 'taskRead', 'k': k})       # will block on the lock
+            self.blocked = k
             return True
-        i = self.rng.randrange(self.queued)
-        self.emit({'op': 'taskRead', 'i': i})
-        self.queued -= 1
+        self.emit({'op': 'taskRead', 'k': self.rng.randrange(self.pre)})
+        self.pre -= 1
         self.holding = 'read'
         return True
 
     def advance(self):
-        """next region of the task that is inside update_listeners"""
+        """next region of the task that holds the lock"""
         if not self.holding:
             return False
         if self.holding == 'read':
@@ -206,17 +216,19 @@ class Sched:
         self.holding = False
         if self.blocked is not None:
             # the blocked task takes the lock at once: it reads next
-            self.emit({'op': 'taskRead', 'i': self.blocked})
-            self.queued -= 1
+            self.emit({'op': 'taskRead', 'k': self.blocked})
+            self.pre -= 1
             self.holding = 'read'
             self.blocked = None
         return True
 
     def drain(self, atomic_only=False):
-        while self.queued or self.holding:
+        while self.queued or self.pre or self.holding:
             if self.holding:
                 self.advance()
+            elif self.pre and (not self.queued or self.rng.random() < 0.6):
+                self.read()
             elif atomic_only or self.rng.random() < 0.5:
                 self.apply()
             else:
-                self.read()
+                self.start()
